@@ -14,6 +14,6 @@ bin/mkcoq.sh
 cp /repo/go.sum harness/go.sum
 for d in harness/cmd/*/; do
   n=$(basename "$d")
-  (cd harness && go build -tags verif -o ../build/harness/$n ./cmd/$n) || echo "setup: harness $n failed to build"
+  (cd harness && go build -trimpath -tags verif -o ../build/harness/$n ./cmd/$n) || echo "setup: harness $n failed to build"
 done
 echo setup done
